@@ -202,6 +202,16 @@ let bw_searches (a : M.z M.bw_automaton) (c : case) pre =
         pr "%sTICKS %d %s\n" pre j (match f1 with Some it -> string_of_int (int_of_n it.M.l_ticks) | None -> "?")
       end) c.hays
 
+(* the Coq-proved certificate checker (Model/Cert.v) on an automaton: for all haystacks *)
+let zeqb (a : M.z) (b : M.z) = (a = b)
+let bw_cert tag (a : M.z M.bw_automaton) (c : case) =
+  if c.kind = 0 || c.entry = "new" || c.entry = "with_values" then
+    match spec_pvs c with
+    | None -> ()
+    | Some pvs ->
+      let ok = M.bw_cert_ok zeqb a pvs in
+      pr "%sCERT %d %d\n" tag (if ok then 1 else 0) (int_of_n (M.bw_cert_count a))
+
 let res_n = function M.Ok (t, _) -> int_of_n t | _ -> 0xEEEEEEEE
 let bw_table (a : M.z M.bw_automaton) kind =
   let sget = M.bw_sget a and ns = M.bw_nslots a in
@@ -259,6 +269,7 @@ let run_bw (c : case) =
     pr "STATS %d %d %d %d\n" (int_of_n a.M.bw_num_states) (List.length a.M.bw_states)
       (int_of_n (M.bw_heap_bytes (n_of_int osz) a)) osz;
     if String.contains c.ops 'T' then bw_table a c.kind;
+    bw_cert "M" a c;
     if String.contains c.ops 'S' then bw_searches a c "";
     if String.contains c.ops 'K' then kindchk c.kind;
     if String.contains c.ops 'R' then begin
@@ -351,6 +362,8 @@ let cw_table (a : M.z M.cw_automaton) kind (pats : int list list) =
   pr "TABLE %d %016Lx %016Lx\n" (List.length order) !hc !hn
 
 let run_cw (c : case) =
+  if List.exists (fun (p, _) -> M.chars_of (nlist p) = None) c.pats
+  || List.exists (fun h -> M.chars_of (nlist h) = None) c.hays then pr "SKIP notutf8\n" else
   let vt = vtype_of c.vt in
   let kind = kind_of c.kind and nfb = n_of_int c.nfb in
   let chars p = match M.chars_of (nlist p) with Some cs -> cs | None -> failwith "pattern not UTF-8" in
